@@ -62,6 +62,7 @@ def names(tier):
 
 
 DECLARED = {}
+ARR_IDENTS = {}
 
 
 def impl_ident(text, rx):
@@ -71,6 +72,12 @@ def impl_ident(text, rx):
     except Exception as e:  # noqa: BLE001
         return "rejected " + type(e).__name__
     DECLARED[text] = sorted(set(re.findall(r"(?m)^(?:\d+ )?DIM ([A-Za-z_][A-Za-z0-9_]*\$?)", out)))
+    # every array identifier the output mentions anywhere, also in the loops written for --initialize-vars
+    try:
+        out_init = convert(text, add_standard_prefix=False, add_suffix=False, initialize_vars=True)
+    except Exception as e:  # noqa: BLE001
+        out_init = ""
+    ARR_IDENTS[text] = sorted(set(re.findall(r"\barr_[A-Za-z0-9_]*\$?", out + "\n" + out_init)))
     for line in out.split("\n"):
         m = re.search(rx, line)
         if m:
@@ -100,6 +107,7 @@ def run(tier):
             model[k] = i
     for c in cs:
         c.setdefault("aux", {})["declared"] = DECLARED.get(c["text"], [])
+        c["aux"]["arr_idents"] = ARR_IDENTS.get(c["text"], [])
     # a reserved word is outside the model's domain too: what matters for it is consistency (see oracle)
     groups = {}
     for k, c in enumerate(cs):
@@ -144,6 +152,12 @@ def oracle(case, impl):
         return f"{case['text']!r}: variable {case['name']} ({case['kind']}) became {ident!r}, Color BASIC identity needs {want!r}"
     if ident in GENERATED or ident.startswith("tmp_"):
         return f"user variable {case['name']} collides with the generated identifier {ident}"
+    # a one-variable program mentions no array but its own (and QQ of the template), with or without
+    # --initialize-vars: the loop that clears the array must clear this array, not its numeric namesake
+    mine = {want} if case["kind"] in ("array", "strarray") else set()
+    other = [a for a in case.get("aux", {}).get("arr_idents", []) if a not in mine | {"arr_QQ"}]
+    if other:
+        return f"{case['text']!r}: the output (plain or with --initialize-vars) touches the array {other[0]}, which the source does not have"
     # the declaration the tool writes for an array must declare the identifier the statement uses
     if case["kind"] in ("array", "strarray"):
         decl = [d for d in case.get("aux", {}).get("declared", []) if d.startswith("arr_") and d != "arr_QQ"]
